@@ -153,6 +153,15 @@ class Interp:
             if 'e' in e:
                 return self.eval(e['e'], env, fn, depth)
             return ('#unit',)
+        if k == 'If' and e['c'].get('k') == 'LetCond':
+            # `if let PAT = EXPR { .. } else { .. }`
+            v = self.eval(e['c']['e'], env, fn, depth)
+            env2 = dict(env)
+            if self.match(e['c']['pat'], v, env2, fn):
+                return self.eval(e['then'], env2, fn, depth)
+            if 'els' in e:
+                return self.eval(e['els'], env, fn, depth)
+            return ('#unit',)
         if k == 'If':
             c = self.eval(e['c'], env, fn, depth)
             if c is True:
@@ -236,6 +245,21 @@ class Interp:
                     return ('#vec',) + tuple(self.apply(args[0], [x], depth) for x in recv[1:])
                 if m == 'first':
                     return ('Some', recv[1]) if len(recv) > 1 else ('None',)
+                if m in ('find', 'any', 'all', 'position') and len(args) == 1:
+                    hits = []
+                    for i_, x in enumerate(recv[1:]):
+                        t_ = self.apply(args[0], [x], depth)
+                        if not isinstance(t_, bool):
+                            raise Undecided('predicate of %s() is not decided' % m)
+                        hits.append(t_)
+                    if m == 'any':
+                        return any(hits)
+                    if m == 'all':
+                        return all(hits)
+                    idx = next((i_ for i_, h in enumerate(hits) if h), None)
+                    if idx is None:
+                        return ('None',)
+                    return ('Some', recv[1 + idx]) if m == 'find' else ('Some', idx)
             if m == 'map' and isinstance(recv, tuple) and recv[0] in ('Ok', 'Some'):
                 return (recv[0], self.apply(args[0], [recv[1]], depth))
             if m == 'map' and isinstance(recv, tuple) and recv[0] in ('Err', 'None'):
